@@ -10,6 +10,8 @@
   C01-SID    delivery uses the stream id carried by the chunk; channels are looked up by that stream id only
   C01-RESET  per-stream tables are cleared when a stream is reset (incoming reset -> inbound state, answered outgoing
              reset -> outbound sequence number and channel)
+  C01-SERIAL TSNs and stream sequence numbers are only compared / advanced through wrap-safe helpers (C17 rule set on
+             rtcsctptransport.py) — ordering decisions must not change at the 2^16 / 2^32 wrap
 Does not decide: reassembly/ordering under loss and reordering schedules.
 """
 from __future__ import annotations
@@ -231,3 +233,7 @@ def run(rep: Report, prog: Program, tier: str) -> None:
             rep.ok("C01-RESET", f"_receive_reconfig_param: per-stream table cleared ({k})", sample="pop / close keyed by the reset stream id inside the loop over the reset streams")
         else:
             rep.fail(mk_finding(prog, PROP, "C01-RESET", rr, rr.node, msgs[k], construct=f"reset clears {k}"))
+
+    # ---------------- C01-SERIAL (shared rule set of C17 on the SCTP module)
+    from .common import serial_subrule
+    serial_subrule(rep, prog, tier, PROP, "C01-SERIAL", ["rtcsctptransport"], 30, "serial-number discipline (C17 rule set) in rtcsctptransport.py")
